@@ -9,7 +9,7 @@
    The character-level regular expressions, the PEG grammars (parsimonious) and Jinja
    are glue: exercised by the correspondence run of harness/C04.py, NOT modelled. *)
 From Coq Require Import ZArith List String Bool Ring.
-From Verif Require Import lib.PyRange lib.LangSyntax gen.PseudoGen model.Lang proofs.LangProofs.
+From Verif Require Import lib.PyRange lib.LangSyntax gen.PseudoGen model.Lang proofs.LangProofs proofs.LangStyleProofs.
 Import ListNotations.
 Open Scope Z_scope.
 
@@ -137,6 +137,13 @@ Theorem C04_variants_equal_unrolled_partial : forall cx (f : list (@node item)) 
   exists n, forall fuel, (n <= fuel)%nat -> compile cx true fuel (flatten f) = compile cx true fuel (map DText items).
 Proof. exact unrolled_source_same_model. Qed.
 Print Assumptions C04_variants_equal_unrolled_partial.
+
+(*    (b) two sources with the same style erasure (erase_source forgets {k} vs [k], ^ vs **, = vs :=, the spelling of
+      the keywords, <x> vs {{x}}, ?(c)|upper vs ?{c}) compile to the same model, for every context and fuel *)
+Theorem C04_variants_equal_styles_partial : forall cx be fuel (s1 s2 : source),
+  erase_source s1 = erase_source s2 -> compile cx be fuel s1 = compile cx be fuel s2.
+Proof. exact same_erasure_same_model. Qed.
+Print Assumptions C04_variants_equal_styles_partial.
 
 (* non-vacuity: a lawful carrier exists; a source with a loop, a conditional inside an equation, a
    pseudofunction, a shock, a log list with !all-but compiles to the expected model *)
